@@ -11,6 +11,36 @@ pub fn run(property: &str, tier: &str) -> i32 {
             let rule = "explicit-state search: every distinct canonical state (placement, side, rights, ep target, inherited promotion descriptor, capture-mode flag) of the S1 reach graph to the per-root depth limits and of the complete S2 small-scope families; transitions = successors produced by the engine's real generate_moves and compared with the rules oracle";
             rep.finish(r.states, r.transitions, r.validated, r.exhaustive, rule)
         }
+        "C07" | "C18" => {
+            let h = crate::zobrist::ZobristHasher::create_zobrist_hasher();
+            let roots = crate::e2_clockpoints::c07_roots(&h);
+            let quick = rep.quick();
+            // heavy roots (more than 10 pieces) one iteration less
+            let depth_of = move |r: &crate::e2_clockpoints::Root| -> u8 {
+                let pieces = r.pos.b.iter().filter(|x| **x != 0).count();
+                match (quick, pieces > 10) {
+                    (true, true) => 2,
+                    (true, false) => 4,
+                    (false, true) => 3,
+                    (false, false) => 5,
+                }
+            };
+            let stats = crate::e2_clockpoints::C07Stats { points: 0.into(), node_queries: 0.into(), repeats: 0.into(), info_lines: 0.into(), residual_zero_entries: 0.into(), answers_changed_by_expiry: 0.into() };
+            crate::e2_clockpoints::sweep_expiry(&rep, &roots, &depth_of, !rep.quick(), &stats);
+            use std::sync::atomic::Ordering::Relaxed;
+            rep.add("expiry_points", stats.points.load(Relaxed));
+            rep.add("clock_consultations_executed", stats.node_queries.load(Relaxed));
+            rep.add("runs_repeated_for_determinism", stats.repeats.load(Relaxed));
+            rep.add("info_lines_checked", stats.info_lines.load(Relaxed));
+            rep.add("distinct_outcomes_summed_over_roots", stats.answers_changed_by_expiry.load(Relaxed));
+            rep.add("observation_zero_count_entries_left_in_record", stats.residual_zero_entries.load(Relaxed));
+            rep.assume("the virtual clock (i-th consultation answers i >= k) is exact for a monotone real clock; out_of_time is the only place the engine reads time for decisions");
+            let rule = format!("for each of {} roots: the un-expired run to the end of iteration {} and every expiry index k = 0..K (K = clock consultations of that run) of the real get_best_move; iterations: {} for roots with more than 10 pieces, {} otherwise; states = (root,k) points, transitions = clock consultations executed", roots.len(), "D", if quick { 2 } else { 3 }, if quick { 4 } else { 5 });
+            rep.finish(stats.points.load(Relaxed), stats.node_queries.load(Relaxed), stats.repeats.load(Relaxed), true, &rule)
+        }
+        "C10" => crate::c10::run(&rep, None),
+        "C11" => crate::e2_oracles::run_c11(&rep),
+        "C12" => crate::e2_oracles::run_c12(&rep),
         "C06" => crate::e5_pure::run_c06(&rep),
         "C09" => crate::e5_pure::run_c09(&rep),
         "C14" => crate::e5_pure::run_c14(&rep),
